@@ -188,8 +188,27 @@ pub fn judge(t: &Topo, d: &TrainDesc, net: &EstTimeNet) -> Judged {
             if !order_ok {
                 push(&mut j, "segment-cleared-before-entered@make_est_times", format!("arrive {:?} clear {:?}", arr, clr));
             }
-            // clears happen in route order and every entered link is eventually cleared
-            if clr != arr[..clr.len().min(arr.len())] || clr.len() != arr.len() {
+            // clears happen in route order and every entered link is eventually cleared -- as far as the geometry allows:
+            // the tail enters link k when the front is one train length past its start, which lies beyond the end of the
+            // path for links in the last train length of the route (a terminal link shorter than the train)
+            let train_len = if d.long { 1080.0 } else { 360.0 };
+            let total: f64 = arr.iter().map(|l| links[*l].length.value).sum();
+            let mut base = 0.0;
+            let mut expect_clr: Vec<usize> = vec![];
+            let mut undecided: Vec<usize> = vec![];
+            for l in &arr {
+                // the simulated train comes to rest some way short of the end of its path (C03 only promises "inside the
+                // path"): tail-entry points within the last 250 m may or may not be reached
+                if base + train_len < total - 250.0 {
+                    expect_clr.push(*l);
+                } else if base + train_len <= total + 1.0 {
+                    undecided.push(*l);
+                }
+                base += links[*l].length.value;
+            }
+            let with_undecided: Vec<usize> = expect_clr.iter().chain(undecided.iter()).cloned().collect();
+            let prefix_ok = clr.len() >= expect_clr.len() && clr.len() <= with_undecided.len() && clr[..] == with_undecided[..clr.len()];
+            if !prefix_ok {
                 push(&mut j, "clear-events-do-not-follow-the-route@make_est_times", format!("arrive {:?} clear {:?}", arr, clr));
             }
             routes.insert(arr);
@@ -227,7 +246,7 @@ impl Prop for C15 {
         "C15"
     }
     fn rule(&self, tier: Tier) -> String {
-        format!("E-SHAPE: real make_est_times on every (topology in the dispatch family{} with 0..2 alternative routes and 1-2 origin/destination segments, PLUS the cut-off family: a fast main track of length 1..8 km on a 100 m grid against a shorter, slower cut-off ({} (length, speed) variants) between the same two switches) x origin/destination pair (both directions) x train length in {{360 m, 1080 m}} x departure in {{0, 300}} s; then EVERY node and EVERY start-to-end walk over idx_next / idx_next_alt of the returned graph (states = nodes, transitions = edges, traces = walks, all enumerated). distinct_nontrivial = distinct (topology, single/multi-origin, number of distinct routes spelled by the walks, number of walks) signatures.", if tier.is_thorough() { ", middle links 0.5 / 3 / 20 km, departures {0,60,300,900,3600} s" } else { ", middle links 0.5 / 3 / 20 km" }, if tier.is_thorough() { 4 } else { 2 })
+        format!("E-SHAPE: real make_est_times on every (topology in the dispatch family{} with 0..2 alternative routes and 1-2 origin/destination segments, PLUS the cut-off family: a fast main track of length 1..8 km on a 100 m grid against a shorter, slower cut-off ({} (length, speed) variants) between the same two switches, and the short-terminal family: a terminal link of 0.15..3 km (shorter than / comparable to the 360 m and 1080 m trains) at the end of a plain line and behind a siding, used as destination and as origin) x origin/destination pair (both directions) x train length in {{360 m, 1080 m}} x departure in {{0, 300}} s; then EVERY node and EVERY start-to-end walk over idx_next / idx_next_alt of the returned graph (states = nodes, transitions = edges, traces = walks, all enumerated). distinct_nontrivial = distinct (topology, single/multi-origin, number of distinct routes spelled by the walks, number of walks) signatures.", if tier.is_thorough() { ", middle links 0.5 / 3 / 20 km, departures {0,60,300,900,3600} s" } else { ", middle links 0.5 / 3 / 20 km" }, if tier.is_thorough() { 4 } else { 2 })
     }
     fn assumptions(&self) -> Vec<String> {
         vec![
@@ -240,6 +259,7 @@ impl Prop for C15 {
         let deps: Vec<u32> = if ctx.tier.is_thorough() { vec![0, 60, 300, 900, 3600] } else { vec![0, 300] };
         let mut topos = topologies(true);
         topos.extend(cutoff_topologies(ctx.tier.is_thorough()));
+        topos.extend(short_terminal_topologies(ctx.tier.is_thorough()));
         for t in topos {
             for od in 0..t.ods.len() {
                 for &dep in &deps {
@@ -283,6 +303,8 @@ impl Prop for C15 {
         };
         let mut topos = topologies(true);
         topos.extend(cutoff_topologies(true));
+        topos.extend(short_terminal_topologies(true));
+        topos.extend(short_terminal_topologies(false));
         let Some(t) = topos.iter().find(|t| t.name == c.topo) else {
             return ReplayOutcome { violations: vec![("bad-replay-file".into(), "unknown topology".into())], observation: String::new() };
         };
